@@ -1,6 +1,7 @@
 package mon
 
 import (
+	"bytes"
 	"context"
 	"encoding/json"
 	"fmt"
@@ -394,6 +395,60 @@ func c27Child(args []string) int {
 		}
 		os.WriteFile(w.Dir+"/garbage.dat", []byte("not a bloom file"), 0o600)
 		os.WriteFile(w.Dir+"/empty.dat", nil, 0o600)
+	}
+	// the public helpers over the damaged files, the conversion functions on odd values, and
+	// expression JSON that does not parse: none of this may print either
+	helperFiles := [][]byte{[]byte("not a bloom file"), {}, bytes.Repeat([]byte{0xff}, 64)}
+	if w.Mem != nil {
+		for _, p := range w.Mem.Pointers() {
+			if b, ok := w.Mem.Get(p); ok {
+				helperFiles = append(helperFiles, b)
+			}
+		}
+	} else if ents, err := os.ReadDir(w.Dir); err == nil {
+		for _, en := range ents {
+			if b, err := os.ReadFile(w.Dir + "/" + en.Name()); err == nil {
+				helperFiles = append(helperFiles, b)
+			}
+		}
+	}
+	for _, fb := range helperFiles {
+		md, _, err := bs.ReadFileMetadata(bytes.NewReader(fb))
+		if err != nil {
+			count("path.helper_rejected_file")
+			continue
+		}
+		for bi := range md.DataBlocks {
+			blk := md.DataBlocks[bi]
+			bs.ReadDataBlockBloomFilters(bytes.NewReader(fb), blk)
+			if rd, err := bs.ReadDataBlockRowData(bytes.NewReader(fb), &blk); err == nil {
+				sc := bs.NewBlockRowScanner(rd)
+				for {
+					if _, ok, err := sc.Next(); !ok || err != nil {
+						break
+					}
+				}
+			}
+			count("path.helper_read_block")
+		}
+	}
+	cr := r.Split("conv")
+	for k := 0; k < 200; k++ {
+		v := gen.NumberOrInf(cr)
+		bs.ConvertToMinMaxInt64(v)
+		bs.ConvertToInt64(v)
+	}
+	bs.ConvertToMinMaxInt64("text")
+	bs.ConvertToMinMaxInt64(nil)
+	bs.ConvertToMinMaxInt64(struct{}{})
+	for _, js := range []string{`{`, `{"Bloom":{"Expression":{"ExpressionType":"NOPE"}}}`, `{"Prefilter":{"Expression":{"ExpressionType":"CONDITION","Condition":{"ConditionType":"GEO"}}}}`, `[]`, `null`, `{"Regex":{"Expression":{"ExpressionType":"CONDITION","Condition":{"Field":"a","Pattern":"("}}}}`} {
+		var q bs.Query
+		if json.Unmarshal([]byte(js), &q) == nil {
+			ctx, cancel := context.WithTimeout(context.Background(), 10*time.Second)
+			world.RunQuery(ctx, e, &q)
+			cancel()
+		}
+		count("path.odd_query_json")
 	}
 	for k := 0; k < 4; k++ {
 		ctx, cancel := context.WithTimeout(context.Background(), 10*time.Second)
